@@ -154,6 +154,13 @@ func (fr *FnRun) callClosure(st *State, site ssa.Instruction, fn *ssa.Function, 
 	ex := fr.ex
 	key := FuncKey(fn)
 	if ctr := ex.DB.Contracts[key]; ctr != nil && ctr.Flags["inline"] == "" {
+		// the contract of a closure names its captured variables
+		fr.extraEnv = map[string]Val{}
+		for i, fv := range fn.FreeVars {
+			if i < len(free) {
+				fr.extraEnv[fv.Name()] = free[i]
+			}
+		}
 		fr.applyContract(st, site, ctr, fn, fn.Signature, args, k)
 		return
 	}
@@ -447,6 +454,10 @@ func (ex *Exec) lookupInterface(key string) *types.Interface {
 
 func (fr *FnRun) bindContractEnv(ctr *Contract, fn *ssa.Function, sig *types.Signature, args []Val) map[string]Val {
 	env := map[string]Val{}
+	for k, v := range fr.extraEnv {
+		env[k] = v
+	}
+	fr.extraEnv = nil
 	i := 0
 	if ctr.Iface {
 		for j, n := range ctr.Params {
@@ -647,6 +658,10 @@ func (fr *FnRun) havocLoc(st *State, m *Expr, env *Env) {
 					st.heap[mv.Obj] = ex.freshMap(mv, ex.fresh(mv.Obj.Name))
 				}
 				return
+			}
+			if pv, isPtr := v.(*PtrV); isPtr {
+				// a captured variable (cell) holding a slice
+				v = ex.force(env.st, ex.load(env.st, pv))
 			}
 			s, ok := v.(*SliceV)
 			if !ok {
